@@ -31,6 +31,10 @@ pub fn use_message(m: &Message) {
 /// declares LEN: Ok => remainder starts exactly at LEN (strict suffix), FilteredOut carries
 /// LEN - headers; never a panic.
 pub fn check_consumption(buf: &[u8], filter: Option<&ProcessedDltFilterConfig>) {
+    check_consumption_opt(buf, filter, true)
+}
+
+pub fn check_consumption_opt(buf: &[u8], filter: Option<&ProcessedDltFilterConfig>, reserialise: bool) {
     let htyp = buf[0];
     let len = u16::from_be_bytes([buf[2], buf[3]]) as usize;
     let headers = ref_all_headers_len(htyp) as usize;
@@ -40,7 +44,9 @@ pub fn check_consumption(buf: &[u8], filter: Option<&ProcessedDltFilterConfig>) 
             assert!(rest.len() == buf.len() - len);
             assert!(bytes_eq(rest, &buf[len..]));
             assert!(rest.len() < buf.len());
-            use_message(&m);
+            if reserialise {
+                use_message(&m);
+            }
         }
         Ok((rest, ParsedMessage::FilteredOut(n))) => {
             assert!(len >= headers && len <= buf.len());
@@ -117,6 +123,24 @@ fn c04_consume_verbose() {
     let n: usize = kani::any();
     kani::assume(n >= 14 && n <= N);
     check_consumption(&buf[..n], None);
+}
+
+/// verbose message without arguments (NOAR = 0) whose declared length LEN is symbolic: payload
+/// bytes that no argument accounts for must still be consumed (exactly LEN bytes in total)
+#[kani::proof]
+#[kani::stub(alloc::fmt::format, fmt_stub)]
+#[kani::unwind(12)]
+fn c04_consume_verbose_noar0() {
+    const N: usize = 18;
+    let mut buf: [u8; N] = kani::any();
+    put_min_header(&mut buf, true);
+    buf[4] = (buf[4] & 0xF0) | 0x01; // verbose log message
+    buf[5] = 0;
+    // concrete ids: the id strings of the result then have concrete lengths (symbolic-length
+    // strings are what makes message-level harnesses expensive)
+    buf[6..14].copy_from_slice(b"APP\0CTX\0");
+    check_consumption_opt(&buf, None, false);
+    kani::cover!(u16::from_be_bytes([buf[2], buf[3]]) == 16);
 }
 
 /// the skipper: `dlt_consume_msg` on storage header + minimal standard header, LEN symbolic
